@@ -49,6 +49,7 @@ def _run_unit(job):
         from pyvc import engine
         mod = importlib.import_module(modname)
         mod.ACTIVE_FINDINGS = set(active)
+        importlib.import_module("contracts.common").ACTIVE_FINDINGS = set(active)
         eng = engine.Engine()
         eng.keep_smt2 = keep_smt2
         res = getattr(mod, fname)(eng, **kwargs)
